@@ -41,7 +41,7 @@ def bounds(tier):
 
 
 def required_guards(tier):
-    return ['faults_injected', 'memoryerror_raised', 'ledger_audits', 'route:api', 'route:unpickled', 'route:slack',
+    return ['faults_injected', 'memoryerror_raised', 'ledger_audits', 'jar_faults', 'jar_loads_inside_operation', 'route:api', 'route:unpickled', 'route:slack',
             'op:insert', 'op:update', 'op:setop', 'op:setstate', 'op:merge', 'op:multiunion',
             'height>=3', 'completed_or_unchanged']
 
@@ -80,6 +80,13 @@ def jobs(tier):
                 js.append({'fn': 'job', 'weight': 12, 'group': kind + '/ledger', 'flavour': 'asan',
                            'args': dict(fam=fam, kind=kind, sizes=sizes,
                                         n=4 if tier == 'quick' else 5, tier=tier, variant='K')})
+    # stored trees whose nodes are ghosts: allocations of the loads that happen inside the operation
+    for fam in (('II', 'OO', 'fs') if tier == 'quick' else F.COVER):
+        for kind in F.KINDS:
+            tree = kind in F.TREE_KINDS
+            js.append({'fn': 'jar_job', 'weight': 30 if tree else 3, 'group': kind + '/jar', 'flavour': 'asan',
+                       'args': dict(fam=fam, kind=kind, sizes=(2, 2) if tree else None,
+                                    n=(5 if tier == 'quick' else 6) if tree else 4)})
     for fam in F.FAMILIES:
         if F.has_multiunion(fam):
             js.append({'fn': 'multiunion_job', 'weight': 3, 'group': 'multiunion', 'flavour': 'asan',
@@ -365,6 +372,178 @@ def job(fam, kind, sizes, n, tier, variant='centred'):
                 guards=dict(guards), outcomes=dict(outcomes), violations=rep.all(), sample=sample)
 
 
+def jar_job(fam, kind, sizes, n):
+    """Allocation failures while nodes are being LOADED inside an operation: the tree lives in a data
+    manager (vt.minidb), every node is a ghost when the operation starts, so the allocations made by the
+    __setstate__ of each node the operation walks into are interception points too (a child loaded in
+    the middle of a split, the next bucket loaded by an unlink ...).  For every state of the shape space
+    (one commit per step), every insert of an absent key and every delete of a present key, every
+    allocation index: MemoryError, contents == before or == completed, sound, follow-up workload agrees
+    with the model, and - after a full cache sweep and dropping the connection - no sanitizer report
+    (a node that lost a reference is freed while its parent still points to it)."""
+    from BTrees.check import check as bcheck
+    from .. import minidb as M
+    import gc
+    ctx = O.Ctx(fam, kind, 'c')
+    hook = F.cmodule(fam)._verif_alloc
+    ex = S.explorer(fam, kind, 'c', sizes, n, 'centred', 'C17')
+    keys, grid, vals = ex.keys, ex.grid, ex.vals
+    states = []
+    ex.state_monitors.append(lambda e, hist, t, model, c: states.append((hist, model.copy(), c)))
+    ex.run()
+    rep = Reporter('C17')
+    guards = collections.Counter(ex.guards)
+    ismap = ctx.is_map
+    evaluations = 0
+    sample = None
+    base = dict(fam=fam, kind=kind, sizes=sizes, n=n, flavour='asan', jar=True)
+
+    def followup(t, start):
+        m = model_for(kind, start)
+        for i, k in enumerate(grid):
+            op = ('setitem', k, vals[i % 2]) if ismap else ('add', k)
+            O.apply_sut(ctx, t, op)
+            O.apply_model(m, op)
+        for k in grid[::2]:
+            op = ('delitem', k) if ismap else ('remove', k)
+            O.apply_sut(ctx, t, op)
+            O.apply_model(m, op)
+        return O.contents(ctx, t) == m.contents()
+
+    for hist, model, c in states:
+        if rep.full:
+            break
+        st0 = M.Storage()
+        c0 = M.Connection(st0)
+        t0 = ctx.new()
+        c0.add(t0)
+        c0.commit()
+        for op in hist:
+            O.fast_apply(ctx, t0, op)
+            c0.commit()
+        root = t0._p_oid
+        before = model.contents()
+
+        def fresh():
+            st = M.Storage()
+            st.data = {oid: list(revs) for oid, revs in st0.data.items()}
+            st.tid, st._oid, st.commits = st0.tid, st0._oid, list(st0.commits)
+            return M.open_tree(st, root)
+        conn, t = fresh()
+        try:
+            okbase = O.contents(ctx, t) == before and not C.walk(C.dump(t, True), ismap)
+        except Exception:       # noqa
+            okbase = False
+        if not okbase:
+            guards['bases_skipped_damaged(C04:F12b)'] += 1
+            continue
+        guards['jar_bases'] += 1
+        present = model.keylist()
+        ops = []
+        for i, k in enumerate(grid):
+            if k not in present:
+                ops.append(('setitem', k, vals[i % 2]) if ismap else ('add', k))
+        for k in present:
+            ops.append(('delitem', k) if ismap else ('remove', k))
+        for op in ops:
+            conn, t = fresh()
+            hook()
+            r0 = O.apply_sut(ctx, t, op)
+            cnt = hook()
+            if r0[0] == 'exc':
+                continue
+            completed = O.contents(ctx, t)
+            for i in range(cnt):
+                slot.set(('C17jar', fam, kind, sizes, hist, op, i, cnt))
+                conn = t = None
+                conn, t = fresh()
+                hook(i)
+                try:
+                    r = O.apply_sut(ctx, t, op)
+                except MemoryError:     # raised while the bound method was fetched (the root is a ghost)
+                    r = ('exc', 'MemoryError')
+                seen = hook()
+                evaluations += 1
+                guards['faults_injected'] += 1
+                guards['jar_faults'] += 1
+                if conn.log and any(e[0] == 'setstate' for e in conn.log):
+                    guards['jar_loads_inside_operation'] += 1
+                case = dict(base, history=[list(o) for o in hist], op=list(op), nth=i, of=cnt)
+                sig = dict(fam=fam, kind=kind, site=op[0], tag='jar', route='jar')
+                if seen <= i:
+                    rep.add(dict(sig, cls='nondeterministic-count'), case,
+                            'allocation #%d not reached on the second run (%d counted, %d seen)' % (i, cnt, seen))
+                    continue
+                if r != ('exc', 'MemoryError'):
+                    rep.add(dict(sig, cls='no-MemoryError', got=r[1] if r[0] == 'exc' else 'ok'), case,
+                            'allocation #%d of %d failed in %r on a stored tree (all nodes ghosts), the caller got %r'
+                            % (i, cnt, op, r if r[0] == 'exc' else ('ok',)))
+                else:
+                    guards['memoryerror_raised'] += 1
+                # structure first, through __getstate__ only (the public read paths may not survive a damaged
+                # tree: an emptied leaf that stayed linked trips an assertion in BTree_rangeSearch)
+                if ctx.is_tree:
+                    try:
+                        dumped = C.dump(t, True)
+                        probs = C.walk(dumped, ismap)
+                    except Exception as e:      # noqa
+                        probs = ['%s: %s' % (type(e).__name__, e)]
+                    if probs:
+                        pc = 'other'
+                        if any('empty leaf' in p_ for p_ in probs):
+                            pc = 'empty-leaf-linked'
+                        elif any('not by descent' in p_ or 'descent successor' in p_ for p_ in probs):
+                            pc = 'removed-leaf-in-chain'
+                        rep.add(dict(sig, cls='unsound', problem=pc, deleting=op[0] in ('delitem', 'remove')), case,
+                                'after allocation #%d of %d failed in %r the tree is damaged: %s'
+                                % (i, cnt, op, '; '.join(probs[:3])))
+                        conn.abort()
+                        continue
+                try:
+                    after = O.contents(ctx, t)
+                except Exception as e:      # noqa
+                    rep.add(dict(sig, cls='unreadable-' + type(e).__name__), case,
+                            'after the failed %r the stored tree cannot be read: %r' % (op, e))
+                    continue
+                if after not in (before, completed):
+                    rep.add(dict(sig, cls='partial-change'), case,
+                            'after allocation #%d of %d failed in %r: contents %r; before %r; completed %r'
+                            % (i, cnt, op, after, before, completed))
+                    continue
+                guards['completed_or_unchanged'] += 1
+                if ctx.is_tree:
+                    try:
+                        t._check()
+                        bcheck(t)
+                        probs = []
+                    except Exception as e:      # noqa
+                        probs = ['%s: %s' % (type(e).__name__, e)]
+                    if probs:
+                        rep.add(dict(sig, cls='unsound', problem='checker', deleting=op[0] in ('delitem', 'remove')),
+                                case, 'after allocation #%d of %d failed in %r the tree is damaged: %s'
+                                % (i, cnt, op, '; '.join(probs[:3])))
+                        continue
+                try:
+                    okf = followup(t, after)
+                except Exception:       # noqa
+                    okf = False
+                if not okf:
+                    rep.add(dict(sig, cls='followup'), case, 'the stored tree misbehaves after the failed %r' % (op,))
+                # everything is released now: abort (invalidate the changed nodes), sweep, drop
+                try:
+                    conn.abort()
+                    conn.sweep()
+                except Exception as e:      # noqa
+                    rep.add(dict(sig, cls='teardown-' + type(e).__name__), case, 'abort/sweep failed: %r' % (e,))
+                if sample is None and cnt >= 3 and i == 1:
+                    sample = case
+            conn = t = None
+    hook()
+    gc.collect()
+    return dict(evaluations=evaluations, distinct=evaluations, exhaustive=not rep.full,
+                guards=dict(guards), outcomes={}, violations=rep.all(), sample=sample)
+
+
 def multiunion_job(fam):
     mod = F.cmodule(fam)
     hook = mod._verif_alloc
@@ -409,6 +588,13 @@ def multiunion_job(fam):
 
 
 def replay(case):
+    if case.get('jar'):
+        r = jar_job(case['fam'], case['kind'], case['sizes'] and tuple(case['sizes']), case['n'])
+        import json
+        from ..runner import _jsonable
+        norm = lambda x: json.dumps(_jsonable(x), sort_keys=True, default=repr)
+        return dict(violations=[v for v in r['violations'] if all(
+            norm(v['case'].get(k)) == norm(case.get(k)) for k in ('history', 'op', 'nth'))])
     if case.get('op') == 'multiunion':
         r = multiunion_job(case['fam'])
         return dict(violations=[v for v in r['violations']
